@@ -105,6 +105,12 @@ def classify2(prog, f, sink, what, d, n):
     r = _multi_alloc(prog, f, L, sink, d, n)
     if r:
         return r
+    from .growth import growth_fits
+    g = growth_fits(prog, f, L, d, n)
+    if g is not None:
+        if g[0]:
+            return ("A", "buffer re-allocated in this function", g[1])
+        return ("X", "buffer re-allocated in this function", g[1])
     cap, kind = dest_cap(prog, f, d)
     nb = _uncast(n)
     B = Bounder(prog, f)
